@@ -1648,4 +1648,9 @@ theorem conc_disk_eq' (fs : Fs) (key : Nat) (w : Write) (h : fs key ≠ some [])
 theorem conc_zero_length_counterexample' (fs : Fs) (key : Nat) (w : Write) (h : fs key = some []) :
     (concDiskGetSet fs key w).2 = .raised ∧ (concDiskGetSet fs key w).1 key = none := by
   simp [concDiskGetSet, diskGetSet, h, upd]
+
+theorem semaphore_balanced' (hasSem cached1 cached2 : Bool) :
+    (openmlSem hasSem cached1 cached2).acquires = (openmlSem hasSem cached1 cached2).releases ∧
+    (openmlSem hasSem cached1 cached2).acquires ≤ 1 := by
+  cases hasSem <;> cases cached1 <;> cases cached2 <;> decide
 end Coba.C19
